@@ -163,6 +163,10 @@ class Translator:
                 return ("false", "B")
             if e.value is None:
                 raise Unsupported("None as a value")
+            if isinstance(e.value, complex):
+                if e.value == 1j:
+                    return ("(Cx.mk (lit 0 : α) (lit 1 : α))", "C")
+                raise Unsupported("complex constant %r" % (e.value,))
             return (rconst(e.value), "R")
         src = ast.unparse(e)
         if isinstance(e, (ast.Name, ast.Attribute, ast.Subscript)):
@@ -348,6 +352,8 @@ class Translator:
                 raise Unsupported("complex arithmetic with %s" % v[1])
             sym = {ast.Add: "+", ast.Sub: "-", ast.Mult: "*", ast.Div: "/"}.get(type(op))
             if sym:
+                if isinstance(op, ast.Div) and tb == "R":
+                    return ("(Cx.divR %s %s)" % (a[0], b[0]), "C")
                 if isinstance(op, ast.Mult) and ta == "R":
                     return ("(Cx.smul %s %s)" % (a[0], b[0]), "C")
                 if isinstance(op, ast.Mult) and tb == "R":
@@ -375,6 +381,12 @@ class Translator:
         if e.keywords:
             raise Unsupported("keyword call %s" % fsrc)
         short = fsrc.split(".")[-1] if fsrc.split(".")[0] in ("np", "numpy", "math") else fsrc
+        if short == "exp" and len(args) == 1 and isinstance(args[0], ast.BinOp) and isinstance(args[0].op, ast.Mult) \
+                and isinstance(args[0].left, ast.Constant) and args[0].left.value == 1j:
+            v = self.expr(args[0].right, env)      # np.exp(1j * x) for a real x: Euler's form
+            if v[1] == "R":
+                return ("(Cx.expI %s)" % v[0], "C")
+            raise Unsupported("exp(1j * non-real)")
         if short in ("log", "sqrt", "exp", "sin", "cos") and len(args) == 1:
             v = self.expr(args[0], env)
             if v[1] == "R":
@@ -382,6 +394,18 @@ class Translator:
             if v[1] == "E" and short == "log":
                 return ("(Ext.log %s)" % v[0], "E")
             raise Unsupported("%s of %s" % (short, v[1]))
+        if short == "conj" and len(args) == 1:
+            v = self.expr(args[0], env)
+            if v[1] == "C":
+                return ("(Cx.conj %s)" % v[0], "C")
+            if v[1] == "R":
+                return v
+            raise Unsupported("conj of %s" % v[1])
+        if short == "arctan2" and len(args) == 2:
+            a, b = self.expr(args[0], env), self.expr(args[1], env)
+            if (a[1], b[1]) == ("R", "R"):
+                return ("(Transc.atan2 %s %s)" % (a[0], b[0]), "R")
+            raise Unsupported("arctan2 of non-reals")
         if short == "abs" and len(args) == 1:
             v = self.expr(args[0], env)
             if v[1] == "R":
@@ -748,14 +772,25 @@ class Translator:
         env = {"__cls__": self.cls}
         sig = []
         for key, lname, ty in spec["params"]:
-            env[key] = (lname, ty)
+            if isinstance(ty, tuple):
+                n_ = len(ty)
+                proj = tuple("%s%s" % (lname, "".join(".2" for _ in range(j)) + (".1" if j < n_ - 1 else "")) for j in range(n_))
+                env[key] = (proj, ty)
+            else:
+                env[key] = (lname, ty)
             sig.append("(%s : %s)" % (lname, lean_ty(ty)))
         # every positional parameter of the Python function must be accounted for
         declared = {k for k, _, _ in spec["params"]} | set(spec.get("ignore_params", []))
         for a in fn.args.args:
             if a.arg != "self" and a.arg not in declared and not any(k.startswith(a.arg + ".") or k.startswith(a.arg + "[") for k in declared):
                 raise Unsupported("new parameter %s" % a.arg)
-        body = self.block(self.body_of(fn), env, 1)
+        stmts = self.body_of(fn)
+        if spec.get("until"):
+            cut = next((j for j, st in enumerate(stmts) if ast.unparse(st).startswith(spec["until"])), None)
+            if cut is None:
+                raise Unsupported("statement %r not found" % spec["until"])
+            stmts = stmts[:cut]
+        body = self.block(stmts, env, 1)
         if "outputs" in spec:
             rty = "(" + " × ".join(lean_ty(t) for _, t in spec["outputs"]) + ")" if len(spec["outputs"]) > 1 else lean_ty(spec["outputs"][0][1])
         else:
@@ -871,10 +906,27 @@ TM_SPECS = [
          ignore_params=["pos"], outputs=TM_OUT),
 ]
 
+MIELENS_SPECS = [
+    dict(cls="MieLens", fn="raw_fields", lean="MieLens_prepare", until="particle_kz",
+         params=[("positions", "pos", ("R", "R", "R")), ("scatterer.n", "n", "C"), ("scatterer.r", "r", "R"), ("medium_wavevec", "k", "R"),
+                 ("medium_index", "nmed", "R"), ("illum_polarization.values[0]", "px", "R"), ("illum_polarization.values[1]", "py", "R")],
+         ignore_params=["scatterer", "illum_polarization"],
+         outputs=[("index_ratio", "C"), ("size_parameter", "R"), ("phi", "R"), ("pol_angle", "R")]),
+]
+LENS_SPECS = [
+    dict(cls="Lens", fn="_compute_field_phase", lean="Lens_field_phase", ret="C", params=[("particle_kz", "kz", "R")]),
+    dict(cls="Lens", fn="raw_fields", lean="Lens_pol_angle", until="integral_l, integral_r",
+         params=[("illum_polarization.values[0]", "px", "R"), ("illum_polarization.values[1]", "py", "R")],
+         ignore_params=["positions", "scatterer", "medium_wavevec", "medium_index", "illum_polarization"],
+         outputs=[("pol_angle", "R")]),
+]
+
 FILES = {
     "PyPrior": ("holopy/core/prior.py", ["HoloModel.ExtArith"], PRIOR_SPECS, "pyPriorFailures"),
     "PyAcc": ("holopy/core/io/io.py", ["HoloModel.Scalar"], ACC_SPECS, "pyAccFailures"),
     "PyTmatrix": ("holopy/scattering/theory/tmatrix.py", ["HoloModel.Tmatrix"], TM_SPECS, "pyTmatrixFailures"),
+    "PyMieLens": ("holopy/scattering/theory/mielens.py", ["HoloModel.CxExtra"], MIELENS_SPECS, "pyMieLensFailures"),
+    "PyLens": ("holopy/scattering/theory/lens.py", ["HoloModel.CxExtra"], LENS_SPECS, "pyLensFailures"),
 }
 
 
